@@ -6,8 +6,8 @@ use crate::spec;
 use crate::world::*;
 use std::path::Path;
 
-/// symbolic line for a definition: 3..=999
-fn any_line() -> usize { let l: usize = any(); assume(l >= 3 && l < 1000); l }
+/// symbolic line for a definition: 4..=999 (line 1 import pytest, line 2 import slot, decorator on line-1)
+fn any_line() -> usize { let l: usize = any(); assume(l >= 4 && l < 1000); l }
 
 /// all definition lines pairwise distinct (so `line` identifies a definition) and the layout is printable
 fn assume_distinct_lines(w: &World) {
@@ -67,3 +67,107 @@ cascade_arm!(c01_root_near_same, [C0, C1, U], [C0, C1, U]);
 /// @harness id=c01_root_then_near props=C01,C08 unwind=17 mem=6 cap=600
 /// C0 registered before C1, both define f, U does not: nearest conftest wins.
 cascade_arm!(c01_root_then_near, [C0, C1, U], [C0, C1]);
+/// @harness id=c01_near_then_root props=C01,C08 unwind=17 mem=6 cap=600
+/// C1 registered before C0, both define f: nearest conftest wins regardless of registration order.
+cascade_arm!(c01_near_then_root, [C1, C0, U], [C1, C0]);
+/// @harness id=c01_sibling_and_root props=C01,C08 unwind=17 mem=6 cap=600
+/// sibling conftest S registered first, root C0 second: S is invisible from /a, C0 wins.
+cascade_arm!(c01_sibling_and_root, [S, C0, U], [S, C0]);
+/// @harness id=c01_sibling_only props=C01 unwind=17 mem=6 cap=600
+/// only the sibling conftest defines f: nothing is visible.
+cascade_arm!(c01_sibling_only, [S, U], [S]);
+/// @harness id=c01_other_module_and_unimported props=C01 unwind=17 mem=6 cap=600
+/// another test module T2 and an un-imported module M define f (no conftest on the path): nothing visible.
+cascade_arm!(c01_other_module_and_unimported, [T2, M, U], [T2, M]);
+/// @harness id=c01_import_vs_sibling props=C01,C08 unwind=17 mem=6 cap=600
+/// S registered first, M second, C1 present and (symbolically) importing M: imported => M's, else none.
+cascade_arm!(c01_import_vs_sibling, [S, M, C1, U], [S, M]);
+/// @harness id=c01_import_m_first props=C01,C08 unwind=17 mem=6 cap=600
+/// M registered before S; C1 (symbolically) imports M.
+cascade_arm!(c01_import_m_first, [M, S, C1, U], [M, S]);
+/// @harness id=c01_plugin_over_third_party props=C01,C08 unwind=21 mem=6 cap=600
+/// third-party V registered before plugin P: plugin wins.
+cascade_arm!(c01_plugin_over_third_party, [V, P, U], [V, P]);
+/// @harness id=c01_root_over_third_party props=C01 unwind=21 mem=6 cap=600
+/// V registered before the root conftest: conftest wins.
+cascade_arm!(c01_root_over_third_party, [V, C0, U], [V, C0]);
+/// @harness id=c01_plugin_tp_sibling props=C01 unwind=21 mem=6 cap=900
+/// P, V and the sibling S define f: plugin wins, S never.
+cascade_arm!(c01_plugin_tp_sibling, [S, V, P, U], [S, V, P]);
+/// @harness id=c01_root_imports props=C01 unwind=17 mem=6 cap=600
+/// only M defines f; the root conftest (symbolically) imports it via a.m.
+cascade_arm!(c01_root_imports, [M, C0, U], [M]);
+/// @harness id=c01_near_import_over_root_def props=C01,C08 unwind=17 mem=6 cap=900
+/// C0 defines f (registered first), M defines f, C1 (symbolically) imports M: the nearer conftest's import beats the root's own definition.
+cascade_arm!(c01_near_import_over_root_def, [C0, M, C1, U], [C0, M]);
+/// @harness id=c01_same_over_near props=C01 unwind=17 mem=6 cap=600
+/// U and C1 define f, C1 registered first.
+cascade_arm!(c01_same_over_near, [C1, U], [C1, U]);
+
+// ---------------------------------------------------------------------------------------------
+// C01(b): usage kinds and cursor columns — find_fixture_definition(file, line, col) on generated text.
+
+/// World with every usage kind of `fx1` in U; the provider is C0's definition (line 4).
+fn usage_world() -> World {
+    let mut w = World::new(&[C0, U]);
+    w.def(C0, "fx1", 4);
+    let g = w.def(U, "g", 4);
+    w.defs[g].deps = vec!["fx1"];
+    w.test(U, 8, &["fx1"]);
+    w.tests[0].usefix = Some("fx1");
+    w.tests[0].indirect = Some("fx1");
+    w.pytestmark_u = Some("fx1");
+    w.with_text = true;
+    w
+}
+/// One usage line of the usage world; the cursor column is chosen by a symbolic selector from a list of
+/// concrete columns (line start, both sides of each token boundary, every column inside the token, line
+/// end and beyond) — each column is its own call site because a symbolic column makes the extracted word a
+/// symbolic-length string, which CBMC could not finish (see DESIGN §0). Inside the recorded token =>
+/// C0's definition, outside => None.
+pub fn usage_cols(line1: usize, s: usize, e: usize, cols: &[u32]) {
+    let w = usage_world();
+    let db = build(&w, WITH_USAGES);
+    let k: u8 = any();
+    assume((k as usize) < cols.len());
+    macro_rules! at { ($i:expr) => {{
+        let col = cols[$i];
+        note!("find_fixture_definition(U, line0={}, col={}) text line={:?}", line1 - 1, col, file_text(&w, U).lines().nth(line1 - 1));
+        let got = db.find_fixture_definition(Path::new(path(U)), (line1 - 1) as u32, col);
+        let inside = (col as usize) >= s && (col as usize) < e;
+        check!("c01.cols.inside_resolves", !inside || got.as_ref().map(|d| d.line) == Some(4));
+        check!("c01.cols.outside_none", inside || got.is_none());
+        let nm = db.find_fixture_at_position(Path::new(path(U)), (line1 - 1) as u32, col);
+        check!("c01.cols.name_inside", !inside || nm.as_deref() == Some("fx1"));
+        check!("c01.cols.name_outside", inside || nm.is_none());
+        std::mem::forget(got); std::mem::forget(nm);
+    }}; }
+    match k { 0 => at!(0), 1 => at!(1), 2 => at!(2), 3 => at!(3), 4 => at!(4), 5 => at!(5), 6 => at!(6), 7 => at!(7), _ => at!(8) }
+    reach!("c01.cols.end");
+    std::mem::forget(db); std::mem::forget(w);
+}
+macro_rules! usage_arm {
+    ($id:ident, $line:expr, $s:expr) => {
+        #[cfg_attr(kani, kani::proof)]
+        #[cfg_attr(kani, kani::stub(std::path::Path::exists, crate::stubs::path_exists_false))]
+        #[cfg_attr(kani, kani::stub(crate::fixtures::FixtureDatabase::is_fixture_imported_in_file, crate::world::stub_is_imported))]
+        #[cfg_attr(kani, kani::stub(core::unicode::unicode_data::alphabetic::lookup, crate::stubs::uni_alphabetic))]
+        #[cfg_attr(kani, kani::stub(core::unicode::unicode_data::n::lookup, crate::stubs::uni_numeric))]
+        pub fn $id() { usage_cols($line, $s, $s + 3, &[0, $s - 2, $s - 1, $s, $s + 1, $s + 2, $s + 3, $s + 4, 200]) }
+    };
+}
+/// @harness id=c01_use_pytestmark props=C01 unwind=60 mem=8 cap=1200 gates=worlds
+/// `pytestmark = pytest.mark.usefixtures("fx1")` (line 2): 9 cursor columns around and inside the string content.
+usage_arm!(c01_use_pytestmark, 2, PYTESTMARK_COL);
+/// @harness id=c01_use_fixture_param props=C01 unwind=60 mem=8 cap=1200 gates=worlds
+/// `def g(fx1): return 1` (line 4): fixture parameter.
+usage_arm!(c01_use_fixture_param, 4, 6);
+/// @harness id=c01_use_usefixtures props=C01 unwind=60 mem=8 cap=1200 gates=worlds
+/// `@pytest.mark.usefixtures("fx1")` (line 6).
+usage_arm!(c01_use_usefixtures, 6, USEFIX_COL);
+/// @harness id=c01_use_indirect props=C01 unwind=60 mem=8 cap=1200 gates=worlds
+/// `@pytest.mark.parametrize("fx1", [1], indirect=True)` (line 7).
+usage_arm!(c01_use_indirect, 7, USEFIX_COL);
+/// @harness id=c01_use_test_param props=C01 unwind=60 mem=8 cap=1200 gates=worlds
+/// `def test_x(fx1): pass` (line 8): test parameter.
+usage_arm!(c01_use_test_param, 8, 11);
